@@ -259,23 +259,30 @@ example : HarnessOK { out := fun _ _ => some [[{ crit := "total", unit := "ms", 
   exact ⟨{ crit := "total", unit := "ms", value := .raw "1".toList }, by simp, rfl, by decide +kernel⟩
 
 omit [DecidableEq κ] [DecidableEq β] in
-theorem loadAll_contents (rtK : κ → κ) (rtB : β → β) [DecidableEq κ] [DecidableEq β] (contents : List (List (Line κ β)))
-    (loaded : List (FP κ β × List (Loaded κ))) (h : loadAll rtK rtB contents = .ok loaded) :
+theorem loadAllWith_contents (ld : List (Line κ β) → Except LoadErr (Tables κ β × List (Loaded κ)))
+    (contents : List (List (Line κ β)))
+    (loaded : List (FP κ β × List (Loaded κ))) (h : loadAllWith ld contents = .ok loaded) :
     (loaded.map (·.1)).map (·.content) = contents := by
   induction contents generalizing loaded with
-  | nil => simp [loadAll] at h; subst h; rfl
+  | nil => simp [loadAllWith] at h; subst h; rfl
   | cons c cs ih =>
-    unfold loadAll at h
-    cases hl : load rtK rtB c with
+    unfold loadAllWith at h
+    cases hl : ld c with
     | error e => simp [hl] at h
     | ok p =>
       obtain ⟨t, ls⟩ := p
-      cases hr : loadAll rtK rtB cs with
+      cases hr : loadAllWith ld cs with
       | error e => simp [hl, hr] at h
       | ok rest =>
         simp only [hl, hr, Except.ok.injEq] at h
         subst h
         simp [FP.ofTables, ih rest hr]
+
+omit [DecidableEq κ] [DecidableEq β] in
+theorem loadAll_contents (rtK : κ → κ) (rtB : β → β) [DecidableEq κ] [DecidableEq β] (contents : List (List (Line κ β)))
+    (loaded : List (FP κ β × List (Loaded κ))) (h : loadAll rtK rtB contents = .ok loaded) :
+    (loaded.map (·.1)).map (·.content) = contents :=
+  loadAllWith_contents _ contents loaded h
 
 /-- `rerun_noop`: a session on files in which every run is complete after
 loading (in particular: every run has its `N` invocations recorded) starts no
@@ -289,7 +296,7 @@ theorem c08_rerun_noop (rtK : κ → κ) (rtB : β → β) (cfg : List (RunC κ)
     (session benchOf rtK rtB cfg H sched order choices stop contents).ending = .complete ∧
     (session benchOf rtK rtB cfg H sched order choices stop contents).trace = [] ∧
     (session benchOf rtK rtB cfg H sched order choices stop contents).contents = contents := by
-  unfold session
+  unfold session sessionWith
   simp only [hl]
   generalize hf : List.filter _ order = tasks
   have htasks : tasks = [] := by
